@@ -8,13 +8,14 @@
      {"ev":"ret","th":0,"what":..,"res":"ok"|"oos","id":n}
      {"ev":"inv","th":r,"what":"setup"|"seal"|"open","id":n}
      {"ev":"ret","th":r,"what":..,"res":"ok"|"fail"|"notfound","seq":n}
+     {"ev":"drop","th":r}                                   (in-memory state: context dropped)
 
    Accepted iff every line is matched by an AfcAbs action (POSTCONDITION).                  *)
 EXTENDS Naturals, Sequences, FiniteSets, TLC, Json, IOUtils
 
 Rec == ndJsonDeserialize(IOEnv.TRACE)
 
-VARIABLES i, table, lastId, ever, removalStarted, removedDone, wcall, rcall, ctx, live
+VARIABLES i, table, lastId, ever, removalStarted, removedDone, wcall, rcall, ctx, live, chanSeq
 
 (* all runs of one trace file share the configuration of the first `reset` record *)
 TCap    == Rec[1].cap
@@ -26,14 +27,14 @@ TCheck  == {IOEnv.PROP}
 
 A == INSTANCE AfcAbs WITH Readers <- 1..NRead, Cap <- TCap, SingleCtx <- TSingle, MaxId <- 0, Check <- TCheck
 
-tvars == <<i, table, lastId, ever, removalStarted, removedDone, wcall, rcall, ctx, live>>
+tvars == <<i, table, lastId, ever, removalStarted, removedDone, wcall, rcall, ctx, live, chanSeq>>
 
 ToSet(s) == {s[j] : j \in 1..Len(s)}
 
 Init == /\ i = 1
         /\ table = {} /\ lastId = A!NoId /\ ever = {} /\ removalStarted = {} /\ removedDone = {}
         /\ wcall = <<"none">>
-        /\ rcall = [r \in 1..NRead |-> <<"none">>] /\ ctx = [r \in 1..NRead |-> <<"none">>] /\ live = {}
+        /\ rcall = [r \in 1..NRead |-> <<"none">>] /\ ctx = [r \in 1..NRead |-> <<"none">>] /\ live = {} /\ chanSeq = <<>>
 
 Reset(e) == /\ e.ev = "reset"
             /\ e.cap = TCap /\ e.single = TSingle /\ e.readers = NRead
@@ -41,7 +42,7 @@ Reset(e) == /\ e.ev = "reset"
             /\ wcall' = <<"none">>
             /\ rcall' = [r \in 1..NRead |-> <<"none">>]
             /\ ctx' = [r \in 1..NRead |-> <<"none">>]
-            /\ live' = {}
+            /\ live' = {} /\ chanSeq' = <<>>
 
 Event(e) ==
    \/ /\ e.ev = "inv" /\ e.th = 0 /\ e.what = "add" /\ A!InvAdd
@@ -53,6 +54,7 @@ Event(e) ==
    \/ /\ e.ev = "ret" /\ e.th # 0 /\ e.res \in {"ok", "fail"}
       /\ A!RetFound(e.th, e.res, IF e.seq >= 0 THEN e.seq ELSE 0)
    \/ /\ e.ev = "ret" /\ e.th # 0 /\ e.res = "notfound" /\ A!RetNotFound(e.th)
+   \/ /\ e.ev = "drop" /\ A!DropCtx(e.th)
 
 Next == /\ i <= Len(Rec)
         /\ LET e == Rec[i] IN
